@@ -100,9 +100,17 @@ structure FEntry where
 /-- The file (one node): an HDF group is a map from names to members; insertion never overwrites. -/
 abbrev File := List (Nat × FEntry)
 
+/-- Insert a pair into a list sorted by name (before the first strictly greater name). -/
+def insertOut (nv : String × Val) : Outs → Outs
+  | [] => [nv]
+  | mw :: t => if nv.1 ≤ mw.1 then nv :: mw :: t else mw :: insertOut nv t
+
 /-- `sorted(output_values.keys())` followed by the look-ups `output_values[name]`: the pairs
-    sorted by name (code-point lexicographic order, as Python compares `str`). -/
-def sortOuts (o : Outs) : Outs := o.mergeSort (fun a b => decide (a.1 ≤ b.1))
+    sorted by name (code-point lexicographic order, as Python compares `str`). Insertion sort by
+    structural recursion (names are unique, so every sorting algorithm gives the same list). -/
+def sortOuts : Outs → Outs
+  | [] => []
+  | nv :: t => insertOut nv (sortOuts t)
 
 def hasIdx (arrs : List (Nat × Arr)) (j : Nat) : Bool := arrs.any (fun ja => ja.1 == j)
 
@@ -154,6 +162,13 @@ def dbIndex (p : Pt) : Db → Option Nat
   | [] => none
   | (q, _) :: t => if q = p then some 0 else (dbIndex p t).map (· + 1)
 
+/-- One iteration of the append loop: `if str(index) in x_group: __append_hdf_output(...)
+    else: __create_hdf_input_output(...)`. -/
+def appendOne (F : File) (i : Nat) (p : Pt) (outs : Outs) : Option File :=
+  match alook i F with
+  | some e => (appendOutput e outs).map (fun e' => setEntry F i e')
+  | none => (createEntry p outs).map (fun e' => F ++ [(i, e')])
+
 /-- The append branch of `to_file`: for each pending point, in buffer order, either complete the
     outputs of its existing file entry or create the entry. `database[input_values]` raising
     `KeyError` (pending point no longer in the database) ⇒ `none`. -/
@@ -162,15 +177,9 @@ def appendPending (db : Db) : File → List Pt → Option File
   | F, p :: ps =>
     match dbIndex p db, alook p db with
     | some i, some outs =>
-      match alook i F with
-      | some e =>
-        match appendOutput e outs with
-        | some e' => appendPending db (setEntry F i e') ps
-        | none => none
-      | none =>
-        match createEntry p outs with
-        | some e' => appendPending db (F ++ [(i, e')]) ps
-        | none => none
+      match appendOne F i p outs with
+      | some F' => appendPending db F' ps
+      | none => none
     | _, _ => none
 
 /-- The full-export branch of `to_file`: entries `i, i+1, …` for the database items in order. -/
@@ -190,12 +199,13 @@ structure State (κ : Type) where
   db : Db
   pend : List (κ × Pt)
   file : File
+  deriving DecidableEq
 
 def State.init {κ : Type} : State κ := { db := [], pend := [], file := [] }
 
 inductive Op where
   | store (p : Pt) (outs : Outs)
-  | export (append : Bool)
+  | exportFile (append : Bool)
   deriving Repr
 
 /-- `Database.store`: the point is first recorded as pending, then the data are updated. -/
@@ -213,7 +223,7 @@ def doExport {κ : Type} (s : State κ) (append : Bool) : Option (State κ) :=
 
 def step {κ : Type} [DecidableEq κ] (H : Pt → κ) (s : State κ) : Op → Option (State κ)
   | .store p o => some (doStore H s p o)
-  | .export a => doExport s a
+  | .exportFile a => doExport s a
 
 def run {κ : Type} [DecidableEq κ] (H : Pt → κ) : State κ → List Op → Option (State κ)
   | s, [] => some s
@@ -221,6 +231,35 @@ def run {κ : Type} [DecidableEq κ] (H : Pt → κ) : State κ → List Op → 
     match step H s op with
     | some s' => run H s' ops
     | none => none
+
+/-! ### The quantifier of the property, as a checker -/
+
+def nodupB : List String → Bool
+  | [] => true
+  | a :: t => !(t.contains a) && nodupB t
+
+/-- Is the operation inside the property's quantifier at this state? A store must pass a dict
+    (distinct names) and must not change an output that is already in the file entry of its
+    point (it may repeat the current value). Exports are always in scope. -/
+def inScopeB {κ : Type} (s : State κ) : Op → Bool
+  | .exportFile _ => true
+  | .store p o =>
+    nodupB (o.map (·.1)) &&
+      match dbIndex p s.db, alook p s.db with
+      | some i, some outs =>
+        match alook i s.file with
+        | some e => o.all (fun nv => !(e.keys.contains nv.1) || (alook nv.1 outs == some nv.2))
+        | none => true
+      | _, _ => true
+
+/-- The whole history is in scope (checked along the run). -/
+def scopedB {κ : Type} [DecidableEq κ] (H : Pt → κ) : State κ → List Op → Bool
+  | _, [] => true
+  | s, op :: ops =>
+    inScopeB s op &&
+      match step H s op with
+      | some s' => scopedB H s' ops
+      | none => true
 
 /-! ### Reading the file back (`update_from_file` into an empty database) -/
 
